@@ -168,7 +168,16 @@ pub fn inherited_style_index(ws: &Worksheet, row: i32, column: i32) -> i32 {
 
 fn resolved_style(model: &Model, sheet: u32, row: i32, column: i32) -> String {
     match model.get_style_for_cell(sheet, row, column) {
-        Ok(s) => style_json(&s),
+        Ok(mut s) => {
+            // The quote prefix says "this text is a text although it looks like something
+            // else": on anything but a text cell the flag means nothing, is shown nowhere,
+            // and typing into the cell resets it.
+            let is_text = matches!(model.workbook.worksheet(sheet).ok().and_then(|ws| ws.cell(row, column)), Some(Cell::SharedString { .. }));
+            if !is_text {
+                s.quote_prefix = false;
+            }
+            style_json(&s)
+        }
         Err(e) => format!("<err {e}>"),
     }
 }
